@@ -5,6 +5,17 @@ import json, pathlib
 ALL = [f'C{i:02d}' for i in range(1, 20)]
 
 CHECKS = {
+ 'C08': dict(
+   technique='Coq proof (Nasu pass order as an arithmetic characterisation; REPEAT executes its body n times) + token-level differential of the _WG/_NASU/_MK files through the session model + controller monitors + file-system naming check',
+   text='Props/C08.v: the Nasu pass offsets are exactly {k/2 : |k| <= n-1, k = n-1 mod 2} (n entries, symmetric, one shift apart, '
+        'centred), ordered outward, feed and shutter untouched; the writer op lists are one REPEAT(scan) block per group / marker; '
+        'the controller runs a REPEAT body n times. Tie to /repo: WaveguideWriter / NasuWriter / MarkerWriter .pgm() are run on '
+        'generated object lists (groups, scans 1..5, adj_scan 1..8, 3-D shifts) and configurations; the written file is compared '
+        'token by token with session(cfg, modelled ops) and run on the controller (no error, exposure = the modelled one); '
+        'adj_scan_order is compared with the model; file names / export_dir / no file for empty writers are checked on disk.',
+   note='Trusted: Coq kernel, lexer, naming check in harness/c08.py; that each write replays its path is C01; the per-structure '
+        'repetition count follows from C01 + REPEAT semantics + the token-level tie, it is not a single end-to-end theorem.',
+   design='5/C08'),
  'C14': dict(
    technique='Coq proof (strokes of the modelled start/linear/end sequences = documented figures; induction over ticks, passes, vertices, copies) + stroke-level differential on Marker.points',
    text='Props/C14.v: for all positions, lengths, tick lists, extents, vertex lists and shifts the open-shutter strokes of the '
